@@ -6,7 +6,10 @@ Three exhaustive families (nothing is sampled):
                   bundled model, at every k of the k-alphabet and k+G: the *internal* Berry curvature tabulated by
                   evaluate_k(..., 'berry_curvature_internal_terms') summed over all bands is 0 (1e-10 of the largest
                   single-band value).
-* kind="ahc_top": AHC (internal terms) through run() on 3 grids x {tetra, no tetra}, Fermi level above all bands = 0 on
+* kind="ahc_top": AHC (internal terms) through run() on 3 grids x {tetra, no tetra}, Fermi level above all bands (both on
+                  a Fermi-level axis that lies entirely above the spectrum -- the calculator then merges all bands into
+                  one group -- and as the last point of an axis that starts below the spectrum -- bands traced one by
+                  one) = 0 on
                   the natural scale  |factor_ahc|/V * mean_k sum_n |Omega_n(k)|  (obtained from a grid tabulation in the
                   same run, which is also checked point-wise).
 * kind="chern"  : gapped 2D models -- Haldane_ptb / Haldane_tbm on the full (delta, hop2, phi) grid, Qi-Wu-Zhang C=+-1,
@@ -189,20 +192,24 @@ def run_ahc_top(case, seed):
     iR, HR = bh.ham_R(s)
     # a rigorous upper bound of the spectrum: ||H(k)|| <= sum_R ||H(R)||
     top = float(sum(np.linalg.norm(h, 2) for h in HR)) + 1.0
-    Ef = np.array([top, top + 1.0])
+    bottom = -top
+    Ef = np.array([top, top + 1.0])            # far above: the calculator merges all bands into one group
+    Ef_span = np.linspace(bottom, top, 41)      # from below the spectrum to above it: bands are traced one by one
     kwf = {"external_terms": False}
     tab = tabulate.TabulatorAll({"berry": tabulate.BerryCurvature(kwargs_formula=kwf, print_comment=False)},
                                 mode="grid", print_comment=False)
-    calcs = {"ahc": static.AHC(Efermi=Ef, tetra=case["tetra"], kwargs_formula=kwf, print_comment=False), "tab": tab}
+    calcs = {"ahc": static.AHC(Efermi=Ef, tetra=case["tetra"], kwargs_formula=kwf, print_comment=False),
+             "ahc_span": static.AHC(Efermi=Ef_span, tetra=case["tetra"], kwargs_formula=kwf, print_comment=False), "tab": tab}
     with bh.case_tmpdir() as tmp:
         grid = wb.Grid(s, NK=NK, NKFFT=1) if case["tetra"] else wb.Grid(s, NK=NK)
         dense = [int(x) for x in grid.dense]
         res = bh.tmp_run(s, grid, calcs, tmp)
         ahc = np.array(res.results["ahc"].data)               # [nEf,3]
+        ahc_span = np.array(res.results["ahc_span"].data)
         O = np.array(res.results["tab"].results["berry"].data)  # [nk,nb,3]
         E = np.array(res.results["tab"].results["Energy"].data)
-    if E.max() >= top:
-        return {"ok": False, "key": "harness:spectrum_bound", "detail": f"{E.max()} >= {top}"}
+    if E.max() >= top - 0.5 or E.min() <= bottom + 0.5:
+        return {"ok": False, "key": "harness:spectrum_bound", "detail": f"[{E.min()},{E.max()}] vs +-{top}"}
     nkexp = int(np.prod(dense))          # the Grid may enlarge the requested NK (minimal FFT grid of the R-set)
     if O.shape != (nkexp, s.num_wann, 3):
         return {"ok": False, "key": "tabulate:grid_shape", "detail": f"{syskey(case['sys'])} NK={NK} dense={dense} shape {O.shape}"}
@@ -214,15 +221,18 @@ def run_ahc_top(case, seed):
                 "detail": f"{syskey(case['sys'])} NK={NK} grid point #{i} sum={O[i].sum(axis=0).tolist()} "
                           f"max|Omega_n|={np.abs(O[i]).max():.3e}"}
     natural = abs(factors.factor_ahc) / abs(np.linalg.det(s.real_lattice)) * max(1.0, np.abs(O).sum(axis=1).max(axis=1).mean())
-    worst = np.abs(ahc).max()
+    if np.abs(ahc_span[0]).max() != 0:
+        return {"ok": False, "key": "AHC:nonzero_below_all_bands", "detail": f"{syskey(case['sys'])} NK={NK} {ahc_span[0].tolist()}"}
+    worst = max(np.abs(ahc).max(), np.abs(ahc_span[-1]).max())
     if worst > 1e-10 * natural:
         return {"ok": False, "key": f"AHC:nonzero_above_all_bands:tetra={case['tetra']}",
                 "nontrivial": ("ahc_top", syskey(case["sys"])),
-                "detail": f"{syskey(case['sys'])} NK={NK} tetra={case['tetra']} Efermi={Ef.tolist()} AHC={ahc.tolist()} "
+                "detail": f"{syskey(case['sys'])} NK={NK} tetra={case['tetra']} Efermi={Ef.tolist()} AHC={ahc.tolist()}; on the axis from {bottom:.2f}: AHC(top)={ahc_span[-1].tolist()} "
                           f"natural scale={natural:.3e}"}
     omax = float(np.abs(O).max())
     return {"ok": True, "nontrivial": (("ahc_top", syskey(case["sys"])) if omax > 1e-6 else False),
-            "obs": {"max_Omega": omax, "ahc_over_scale": float(worst / natural)}}
+            "obs": {"max_Omega": omax, "ahc_over_scale": float(worst / natural),
+                    "max_ahc_inside_bands_over_scale": float(np.abs(ahc_span).max() / natural)}}
 
 
 # ----------------------------------------------------------------------------------------- (c)
